@@ -58,6 +58,8 @@ type Exec struct {
 	Dead    string // deadlock description
 	Hang    string
 	Diverge string
+	// UnlockPoints makes the release of a thread's outermost lock a scheduling point as well
+	UnlockPoints bool
 }
 
 // regMu guards the registration of threads (and nothing else). It is process-wide and never
@@ -153,6 +155,20 @@ func (e *Exec) lookup() *Thread {
 	return t
 }
 
+// CallerThread returns the registered thread the calling goroutine is, or nil (a goroutine lal started
+// itself that has never taken a lock, such as a connection's writer goroutine, is not registered).
+//
+//go:norace
+func (e *Exec) CallerThread() *Thread {
+	g := goid()
+	if t := e.getCur(); t != nil && t.getGoid() == g {
+		return t
+	}
+	regMu.Lock()
+	defer regMu.Unlock()
+	return e.byGoid[g]
+}
+
 // BeforeLock parks the calling thread until the scheduler lets it take m.
 //
 //go:norace
@@ -185,6 +201,14 @@ func (e *Exec) AfterUnlock(m *zzverifsync.Mutex) {
 			if e.cur == t {
 				e.cur = nil
 			}
+		}
+		if e.UnlockPoints && !t.spawned && t.depth == 0 && e.cur == t {
+			// releasing the outermost lock is a scheduling point too (always enabled): what the thread does
+			// next without taking a lock (changing a connection's properties, say) can then come after
+			// other threads' critical sections
+			t.want, t.wantR = nil, nil
+			e.park(t)
+			t.locks--
 		}
 	}
 }
